@@ -835,8 +835,15 @@ analyze_function(CallGraphNode cg_node,
       CRAB_VERBOSE_IF(1, get_msg_stream()
                              << "++ Fixpoint reached for recursive function "
                              << cfg.get_func_decl().get_func_name() << "!\n";);
-      // Don't check invariants with the last iteration
-      return nullptr;
+      // Don't check invariants with the last iteration: they were
+      // already stored by the previous one. However, if the fixpoint
+      // converges at the very first iteration (e.g., the recursive
+      // call is not reachable or the function does not return) then
+      // there is no previous iteration and the invariants must be
+      // stored now. Otherwise, the function would look dead.
+      if (iteration > 0) {
+        return nullptr;
+      }
     } else {
       CRAB_VERBOSE_IF(1, get_msg_stream()
                              << "++ Widening " << iteration
